@@ -191,3 +191,34 @@ func deployFSChainFor(v int) {
 	vDeploy("neofsid", false)
 	vDeployVersion("container", v, false, vContractHash("netmap"), vContractHash("balance"), vContractHash("neofsid"), vContractHash("nns"), "container")
 }
+
+// C16 gate right after a change of the Inner Ring (Processing, whose update is authorised by the designated
+// NeoFS Alphabet): RoleManagement puts a designation in force from the NEXT block, and the contract asks for
+// the keys of index+1 = the block carrying the update. So the designation made in the block just before the
+// update is the one that counts: the new majority is authorised, the replaced one is not.
+// param 0: committee size; param 1: blocks between the designation and the update (0: the very next block).
+func VerifC16GateAfterDesignation() {
+	vCommittee(vParam(0))
+	v := vInt("deployedVersion")
+	cur := vRepoVersion()
+	vSetIR(3)
+	deployOld(8, v) // processing
+	replaced := vIRMajorityAcct()
+	vSetIRNamed("nir", 3)
+	if vParam(1) > 0 {
+		vAdvance(vParam(1))
+	}
+	current := vIRMajorityAcct()
+	byReplaced, byCurrent := vBool("replacedInnerRingMajoritySigns"), vBool("newInnerRingMajoritySigns")
+	vSign(replaced, byReplaced)
+	vSign(current, byCurrent)
+	vSign(vAcct("stranger"), true)
+	done, _ := vUpdateFrom("processing", v)
+	vAssert(!done || (byCurrent && v >= 15004 && v < cur), "C16/update-completes-only-with-the-required-majority-and-a-supported-older-version")
+	vAssert(done || !(byCurrent && v >= 15004 && v < cur), "C16/update-from-a-supported-version-completes-with-the-required-majority")
+	vRequire(done, "update-completed-under-the-new-inner-ring")
+	vCoverIf(!done && byReplaced && !byCurrent && v >= 15004 && v < cur, "replaced-inner-ring-is-refused")
+	if !done {
+		vAssert(!vEffects(), "C16/refused-update-changes-nothing")
+	}
+}
